@@ -51,7 +51,19 @@ func (c *Ctx) contractFor(fn *ssa.Function) *Contract {
 	return c.eng.db.Contracts[funcPkgPath(fn)+"::"+relFuncName(fn)]
 }
 
-func (c *Ctx) execCall(st *State, fr *Frame, instr ssa.Instruction, call *ssa.CallCommon, k func(st *State, results []T)) {
+func (c *Ctx) execCall(st *State, fr *Frame, instr ssa.Instruction, call *ssa.CallCommon, k0 func(st *State, results []T)) {
+	k := k0
+	if acs := c.afterClauses(fr, call); len(acs) > 0 {
+		pre := st.snap()
+		k = func(st2 *State, results []T) {
+			se := &SpecEnv{c: c, st: st2, vars: fr.env, pkg: c.pkgOfFrame(fr), old: pre, fr: fr}
+			for _, cl := range acs {
+				c.assumedClauses[c.fnKey()+": after "+cl.Callee+" "+cl.With+" assume "+normSpace(cl.Text)] = true
+				st2.assume(se.evalBool(cl.E))
+			}
+			k0(st2, results)
+		}
+	}
 	// builtins
 	if bi, ok := call.Value.(*ssa.Builtin); ok {
 		c.execBuiltin(st, fr, instr, bi, call, k)
@@ -71,7 +83,7 @@ func (c *Ctx) execCall(st *State, fr *Frame, instr ssa.Instruction, call *ssa.Ca
 				if _, isPtr := recv.Dyn.Underlying().(*types.Pointer); isPtr {
 					rv = T{S: "(ipay " + recv.S + ")", So: "Addr", Ty: recv.Dyn, Fresh: recv.Fresh}
 				} else {
-					rv = c.load(st, "(ipay "+recv.S+")", recv.Dyn)
+					rv = c.loadBox(st, "(ipay "+recv.S+")", recv.Dyn)
 				}
 				c.callFunction(st, fr, instr, m, append([]T{rv}, args...), k)
 				return
@@ -331,25 +343,25 @@ func (c *Ctx) applyContract(st *State, fr *Frame, instr ssa.Instruction, ct *Con
 		st.assume(g)
 	}
 	pre := st.snap()
-	// frame of the callee
-	locs, star := c.evalAssigns(se, ct, "assigns", 0)
 	hasAssigns := false
 	for _, cl := range ct.Clauses {
 		if cl.Kind == "assigns" {
 			hasAssigns = true
 		}
 	}
-	if !hasAssigns {
-		star = true
-	}
-	c.frameCheckCall(st, fr, instr, name, locs, star)
-	noalloc := ct.Flags["noalloc"] || ct.Flags["pure"] || (hasAssigns && len(locs) == 0 && !star && ct.Flags["noalloc"])
+	noalloc := ct.Flags["noalloc"] || ct.Flags["pure"]
 	if !noalloc {
 		st.heapTop = c.declareHeapGrow(st)
 	}
-	c.havocLocs(st, pre, locs, star, pre.heapTop, noalloc)
 	rs := c.freshResults(st, sig)
 	bindResults(env, resultNames(ct, sig), rs)
+	// frame of the callee (may mention results, e.g. the ghost state of a returned iterator)
+	seA := &SpecEnv{c: c, st: st, vars: env, pkg: ct.Pkg, snapOnly: pre}
+	locs, star := c.evalAssigns(seA, ct, "assigns", 0)
+	if !hasAssigns {
+		star = true
+	}
+	c.havocLocs(st, pre, locs, star, pre.heapTop, noalloc)
 	se2 := &SpecEnv{c: c, st: st, vars: env, pkg: ct.Pkg, old: pre}
 	for _, cl := range ct.Clauses {
 		if cl.Kind != "ensures" {
@@ -357,6 +369,7 @@ func (c *Ctx) applyContract(st *State, fr *Frame, instr ssa.Instruction, ct *Con
 		}
 		st.assume(se2.evalBool(cl.E))
 	}
+	c.frameCheckCall(st, fr, instr, name, locs, star)
 	k(st, rs)
 }
 
@@ -376,6 +389,7 @@ type Loc struct {
 	Ty   types.Type
 	Key  string // ghost memory key
 	Idx  string // ghost: owner term
+	OwnerSort string
 	Text string
 }
 
@@ -641,20 +655,23 @@ func (c *Ctx) frameCheckCall(st *State, fr *Frame, instr ssa.Instruction, name s
 		case "map":
 			gs = append(gs, or("(> (root "+l.Addr+") "+c.h0+")", c.mapInFrame(locs, l.Addr)))
 		case "ghost":
-			ok := false
+			var ds []string
+			switch l.OwnerSort {
+			case "Iface":
+				ds = append(ds, "(> (root (ipay "+l.Idx+")) "+c.h0+")")
+			case "Addr":
+				ds = append(ds, "(> (root "+l.Idx+") "+c.h0+")")
+			}
 			for _, tl := range locs {
 				if tl.Kind == "ghost" && tl.Key == l.Key {
 					if tl.Idx == "*" || tl.Idx == l.Idx {
-						ok = true
+						ds = append(ds, "true")
 					} else {
-						gs = append(gs, "(= "+tl.Idx+" "+l.Idx+")")
-						ok = true
+						ds = append(ds, "(= "+tl.Idx+" "+l.Idx+")")
 					}
 				}
 			}
-			if !ok {
-				gs = append(gs, "false")
-			}
+			gs = append(gs, or(ds...))
 		}
 	}
 	g := and(gs...)
@@ -1021,4 +1038,43 @@ func (c *Ctx) tagSelected(tags []string) bool {
 		}
 	}
 	return false
+}
+
+// afterClauses: "after <callee> [with <closure>] assume <expr>" clauses of the frame's contract that match this call.
+func (c *Ctx) afterClauses(fr *Frame, call *ssa.CallCommon) []*Clause {
+	ct := fr.contract
+	if ct == nil {
+		ct = c.contractFor(fr.fn)
+	}
+	if ct == nil {
+		return nil
+	}
+	var out []*Clause
+	for _, cl := range ct.Clauses {
+		if cl.Kind != "aftercall" {
+			continue
+		}
+		name := ""
+		if call.IsInvoke() {
+			name = call.Method.Name()
+		} else if sc := call.StaticCallee(); sc != nil {
+			name = funcPkgPath(sc) + "." + relFuncName(sc)
+		}
+		if !strings.HasSuffix(name, cl.Callee) {
+			continue
+		}
+		if cl.With != "" {
+			found := false
+			for _, a := range call.Args {
+				if mc, ok := a.(*ssa.MakeClosure); ok && relFuncName(mc.Fn.(*ssa.Function)) == cl.With {
+					found = true
+				}
+			}
+			if !found {
+				continue
+			}
+		}
+		out = append(out, cl)
+	}
+	return out
 }
